@@ -502,7 +502,7 @@ func (x *Exec) callSSA(caller *frame, callpos token.Pos, fn *ssa.Function, args 
 		panic(unsupported{"uninstantiated generic " + fn.String()})
 	}
 	x.depth++
-	if x.depth > 400 {
+	if x.depth > 4000 {
 		panic(unsupported{"call depth exceeded in " + fn.String()})
 	}
 	defer func() { x.depth-- }()
